@@ -166,3 +166,183 @@ def c07(tier, seed):
 def bootstrap_client_traces(run, tier, seed, cfg):
     """code -> spec on real bootstrap client runs (defined below once Trace_Bootstrap exists)."""
     return 0
+
+
+# ---------------------------------------------------------------------------------------------------------------
+# C08
+
+
+def _job_natsum_inject(arg):
+    from harness import calls
+
+    out = []
+    for ns in arg:
+        try:
+            obs = calls.run_summary_injected(ns)
+        except Exception as e:  # noqa: BLE001
+            obs = {"kind": "raised", "pred": 0, "lower": 0, "upper": 0, "exc": f"{type(e).__name__}: {str(e)[:200]}"}
+        out.append({"kind": "inject", "ns": dict(ns, history=[]), "obs": obs})
+    return out
+
+
+def _natsum_universe(rnd, n, contests=("AA", "BB"), pv=(-6, -1, 1, 6), dv=(-4, 4), weights=(3, 5, 7)):
+    out = []
+    for _ in range(n):
+        cs = list(contests)
+        roles = {c: rnd.choice(["L", "R", "N", "N"]) for c in cs}
+        out.append(
+            dict(
+                p={c: rnd.choice(pv) for c in cs},
+                b1={c: [rnd.choice(dv), rnd.choice(dv)] for c in cs},
+                b2={c: [rnd.choice(dv), rnd.choice(dv)] for c in cs},
+                w={c: weights[i] for i, c in enumerate(cs)},
+                lhs=[c for c in cs if roles[c] == "L"],
+                rhs=[c for c in cs if roles[c] == "R"],
+                stop=[c for c in cs if rnd.random() < 0.3],
+                corr=rnd.random() < 0.5,
+                base=rnd.choice([0, 10]),
+                nweights=len(cs) + (rnd.choice([-1, 1]) if rnd.random() < 0.05 else 0),
+            )
+        )
+    return out
+
+
+def _sgn_micro(x):
+    v = int(round(float(x) * 1e6))
+    if v == 0 and float(x) != 0.0:
+        v = 1 if x > 0 else -1
+    return v
+
+
+def _job_natsum_client(arg):
+    """Real bootstrap client run + national summary; returns 'client' and 'history' trace records."""
+    seed, histories, with_calls = arg
+    import hashlib
+
+    from elexmodel.models.BootstrapElectionModel import BootstrapElectionModelException
+
+    from harness import synth
+
+    rnd = random.Random(seed)
+    states = ("AA", "BB", "CC")
+    pre, cur = synth.make_election(n=48, states=states, seed=seed, frac_reporting=0.6, thr=100)
+    pre = synth.with_margin_features(pre)
+    # pull the states towards a tie so that winners / uncertain contests vary
+    weights = {s: rnd.choice([3, 5, 7, 11]) for s in states}
+    base = rnd.choice([0, 12])
+    lhs = rhs = stop = []
+    if with_calls:
+        roles = {s: rnd.choice(["L", "R", "N", "N"]) for s in states}
+        lhs = [s for s in states if roles[s] == "L"]
+        rhs = [s for s in states if roles[s] == "R"]
+        stop = [s for s in states if rnd.random() < 0.3]
+    recs = []
+    runs = []
+    alphas = [0.7, 0.9]
+    for h in histories:
+        try:
+            c, res = synth.run_client(
+                pre, cur, estimands=("margin",), pi_method="bootstrap", features=("baseline_normalized_margin", "x1"),
+                aggregates=list(h) + ["unit"], model_parameters={"B": 12, "national_summary_correlation": seed % 2 == 0},
+                lhs_called_contests=lhs, rhs_called_contests=rhs, stop_model_call=stop, pis=alphas,
+            )
+            df = c.get_national_summary_votes_estimates(dict(weights), base, alphas)
+            row = df.iloc[0]
+            trip = {str(k + 1): {"pred": row["agg_pred"], "lower": row[f"lower_{a}"], "upper": row[f"upper_{a}"]} for k, a in enumerate(alphas)}
+            tok = hashlib.sha1(repr([(k, float(v[x]).hex()) for k, v in sorted(trip.items()) for x in ("pred", "lower", "upper")]).encode()).hexdigest()[:12]
+            try:
+                c.get_national_summary_votes_estimates({"AA": 1}, base, alphas)
+                wrong = "accepted"
+            except BootstrapElectionModelException:
+                wrong = "error"
+            runs.append({"history": list(h), "kind": "ok", "tok": tok, "wrongsize": wrong})
+            if h == histories[0]:
+                sd = res["state_data"].set_index("postal_code")
+                ints = {}
+                for k, v in trip.items():
+                    ints[k] = {x: int(round(float(v[x]))) for x in v}
+                    for x in v:
+                        if abs(float(v[x]) - round(float(v[x]))) > 1e-9:
+                            raise ValueError("non-integral summary with integer weights")
+                recs.append(
+                    {
+                        "kind": "client",
+                        "c": {
+                            "pred": {s: _sgn_micro(sd.loc[s, "pred_margin"]) for s in states},
+                            "w": weights, "base": base, "lhs": lhs, "rhs": rhs, "stop": stop,
+                            "triples": [ints[str(k + 1)] for k in range(len(alphas))],
+                        },
+                    }
+                )
+        except Exception as e:  # noqa: BLE001
+            runs.append({"history": list(h), "kind": f"raised {type(e).__name__}: {str(e)[:120]}", "tok": "-", "wrongsize": "error"})
+    recs.append({"kind": "history", "runs": runs})
+    return recs
+
+
+HISTORIES = [
+    ["postal_code"],
+    ["postal_code", "county_fips"],
+    ["county_fips", "postal_code"],
+    ["postal_code", "county_fips", "county_classification"],
+    ["county_classification", "postal_code", "county_fips"],
+    ["county_fips", "county_classification", "postal_code"],
+]
+
+
+def c08(tier, seed):
+    from harness import tracecheck
+
+    run = report.Run("C08", tier, seed)
+    run.assumptions += [
+        "hard threshold (the default) for the bounded / winners clauses; non-negative contest weights",
+        "injected scenarios use B = 2 draws and alpha = 0.9 (quantile level 0, national-sum ranks 0 and 2); argsort ties admit every tied draw (candidate set)",
+        "client runs: B = 12 draws, 3 contests; the summary is compared across request orders bit-for-bit",
+    ]
+    common.mc(run, "MC_NationalSummary", "MC_NationalSummary_quick.cfg", timeout=1200)
+    common.mc(run, "MC_NationalSummary", "MC_NationalSummary_history.cfg", timeout=600)
+    common.mc(run, "MC_NationalSummary", "MC_NationalSummary_F3.cfg", expect_violation="HistoryIndependent", name="F3 demo (every aggregate overwrites the matrices the summary reads)")
+    common.mc(run, "MC_NationalSummary", "MC_NationalSummary_F4.cfg", expect_violation="Ordered", name="F4 demo (losses/gains not restricted to winners/losers)")
+    rnd = random.Random(seed)
+    n = 6000 if tier == "quick" else 60000
+    scen = _natsum_universe(rnd, n)
+    scen += _natsum_universe(rnd, n // 3, contests=("AA", "BB", "CC"), pv=(-8, -6, -5, -1, 0, 1, 5, 6, 8), dv=(-7, -4, -1, 1, 4, 7))
+    jobs = [scen[i : i + 250] for i in range(0, len(scen), 250)]
+    traces = []
+    for out in common.pool().map(_job_natsum_inject, jobs, chunksize=1):
+        traces.extend(out)
+    for t in traces:
+        ns, o = t["ns"], t["obs"]
+        if o["kind"] == "ok" and o["lower"] < o["pred"] < o["upper"]:
+            run.witness("summary_with_losses_and_gains")
+        if o["kind"] == "error":
+            run.witness("wrong_size_dictionary")
+        if (ns["lhs"] or ns["rhs"]) and ns["stop"]:
+            run.witness("called_and_stopped_contests")
+        if ns["corr"]:
+            run.witness("correlation_mode")
+        else:
+            run.witness("quantile_draw_mode")
+    n_hist = 4 if tier == "quick" else 24
+    cjobs = [(seed + k, HISTORIES, k % 2 == 1) for k in range(n_hist)]
+    for recs in common.pool().map(_job_natsum_client, cjobs, chunksize=1):
+        traces.extend(recs)
+        for r in recs:
+            if r["kind"] == "history" and len(r["runs"]) == len(HISTORIES):
+                run.witness("histories_compared")
+            if r["kind"] == "client":
+                run.witness("client_summary")
+
+    def on_reject(tr, clause, inv):
+        facts = {"clause": clause, "kind": tr["kind"], "invariant": inv}
+        if tr["kind"] == "inject":
+            facts["corr"] = tr["ns"]["corr"]
+        run.violation(clause, facts, {"trace": tr})
+
+    n_ok = tracecheck.validate("Trace_NationalSummary", "Trace_NationalSummary.cfg", traces, on_reject, run=run, chunk=4000)
+    run.cov["traces_validated_against_impl"] += n_ok
+    run.sample({"injected": traces[0]})
+    run.sample({"history": [t for t in traces if t["kind"] == "history"][:1]})
+    run.finish(
+        require_witnesses=["summary_with_losses_and_gains", "wrong_size_dictionary", "called_and_stopped_contests", "correlation_mode", "quantile_draw_mode", "histories_compared", "client_summary"]
+    )
